@@ -292,7 +292,10 @@ func slowReaderRunAt(addr string, cluster *fakecass.Cluster, n, padBytes int, st
 func slowReaderScenario(c *Ctx, idx int) {
 	r := c.R
 	n := 3000 + 500*(idx%3)
-	stall := time.Duration(c.Pick(7, 12)) * time.Second
+	stall := 7 * time.Second // below the 10 s after which the proxy (since dd3f42b) gives up on a client that does not read
+	if !c.Quick() && idx%2 == 1 {
+		stall = 12 * time.Second // ... and above it: the proxy may then close the connection, which ends the obligation
+	}
 	scenario := map[string]interface{}{"kind": "slow-reader", "idx": idx, "n": n, "stall_s": int(stall / time.Second)}
 	c.Step("slow-reader idx=%d n=%d stall=%s", idx, n, stall)
 	bed, err := px.NewBed(px.BedConfig{Hosts: 1 + idx%2, NumConns: 1, Keyspaces: []string{"ks1"}})
